@@ -905,6 +905,12 @@ const C12_CRAFTED: &[&str] = &[
     "6k1/8/8/8/1pP5/8/1pP5/4K3 b - c3 0 2",
     "6k1/1pP5/8/8/1pP5/8/8/4K3 b - c3 0 2",
     "4k3/8/8/PpP5/8/PpP5/8/6K1 w - b6 0 2",
+    // an ENEMY pawn on the capturing file, on its own fifth rank (it has passed the capturer):
+    // its diagonal step onto an empty square has the files of the en-passant capture
+    "4k3/8/8/1Pp5/1p6/8/8/6K1 w - c6 0 2",
+    "6k1/8/8/1P6/1pP5/8/8/4K3 b - c3 0 2",
+    "4k3/8/8/pP6/1p6/8/8/6K1 w - a6 0 2",
+    "r1bqkbnr/1ppp1ppp/p7/P3P3/4pP2/8/1PP1P1PP/RNBQKBNR b KQkq f3 0 6",
 ];
 
 fn c12_root(corpus: &[String], rng: &mut Rng, i: usize) -> Root {
@@ -926,6 +932,24 @@ fn c12_root(corpus: &[String], rng: &mut Rng, i: usize) -> Root {
         let feat = p.ep.is_some() || p.castle.iter().any(|c| *c) || p.legal_moves().iter().any(|m| m.promo != 0);
         if !feat && !rng.chance(1, 6) {
             continue;
+        }
+        if p.ep.is_some() && rng.chance(1, 4) {
+            // an enemy pawn that has passed the capturer on the capturer's file (its own fifth rank)
+            let w = p.white_to_move;
+            let ef = p.ep.unwrap() as i8;
+            for cf in [ef - 1, ef + 1] {
+                if !(0..8).contains(&cf) {
+                    continue;
+                }
+                let (r5, re) = if w { (4, 3) } else { (3, 4) };
+                if p.b[o::sq(cf, r5) as usize] == o::mk(o::PAWN, w) && p.b[o::sq(cf, re) as usize] == o::EMPTY {
+                    let mut q = p.clone();
+                    q.b[o::sq(cf, re) as usize] = o::mk(o::PAWN, !w);
+                    if q.is_sane() {
+                        return Root { fen: fen::render6(&q, 0, 1), moves: vec![] };
+                    }
+                }
+            }
         }
         if p.ep.is_some() && rng.chance(1, 2) {
             // add a second pawn of the mover on the capturing pawn's file (same file pair)
